@@ -12,7 +12,10 @@ import (
 
 // ===== family L: OPT — option state ===========================================================
 
-func isPkgInit(fn *ssa.Function) bool { return fn.Name() == "init" && fn.Synthetic != "" }
+// isPkgInit: the synthetic package initialiser or a declared func init() (named init#N by go/ssa).
+func isPkgInit(fn *ssa.Function) bool {
+	return fn.Name() == "init" && fn.Synthetic != "" || strings.HasPrefix(fn.Name(), "init#") && fn.Parent() == nil && fn.Signature.Recv() == nil
+}
 
 // ruleOptWriters: every package-level variable is an option (stored only by init and its named
 // setters), a user-assignable exported variable (never stored by the module) or a read-only
@@ -45,6 +48,31 @@ func ruleOptWriters(p *Prog, r *Report) {
 						}
 					case *ssa.Store:
 						if x.Addr == ssa.Value(g) {
+							continue
+						}
+					case *ssa.IndexAddr, *ssa.FieldAddr:
+						// element/field of an array or struct variable: loads are reads, stores are writes by f
+						okUse := true
+						for _, ref := range *in.(ssa.Value).Referrers() {
+							switch y := ref.(type) {
+							case *ssa.UnOp:
+								if y.Op != token.MUL {
+									okUse = false
+								}
+							case *ssa.Store:
+								if y.Addr == in.(ssa.Value) {
+									if w[g] == nil {
+										w[g] = map[*ssa.Function]bool{}
+									}
+									w[g][f] = true
+								} else {
+									okUse = false
+								}
+							default:
+								okUse = false
+							}
+						}
+						if okUse {
 							continue
 						}
 					}
